@@ -270,14 +270,14 @@ def run(ck, repo: Repo, tier: str):
           f"default keys {order}", "" if order[:5] == ["observation", "action", "reward", "next_observation", "termination"] else "the positional roles of a sampled batch changed", "rl_blox/blox/replay_buffer.py")
     n = 0
     for q, spec in SPEC.items():
-        analyse_loss(ck, repo, nf, q, spec)
+        ck.guard(analyse_loss, ck, repo, nf, q, spec)
         n += 1
-    _double_q(ck, repo, nf)
-    _td7(ck, repo, nf)
-    _mrq(ck, repo, nf)
-    _sale(ck, repo, nf)
+    ck.guard(_double_q, ck, repo, nf)
+    ck.guard(_td7, ck, repo, nf)
+    ck.guard(_mrq, ck, repo, nf)
+    ck.guard(_sale, ck, repo, nf)
     ck.floor("critic-losses", n + 2, 10)
-    _callers(ck, repo)
+    ck.guard(_callers, ck, repo)
 
 
 def _batch_order(repo):
